@@ -8,6 +8,15 @@ COMMON_TRUST = [
 ]
 
 PROPS = {
+    'C19': dict(
+        units=['reflection'], level='proof',
+        not_covered=[
+            'the async request loop server_reflection_info of v1.rs / v1alpha.rs (tokio::spawn, mpsc, Streaming): that each MessageRequest variant is answered by the matching lookup, and that v1 and v1alpha give the same answers (the two files are textually parallel; not decided here)',
+            'prost: FileDescriptorSet::decode and Message::encode are uninterpreted (A-prost-02/03), so "decodes to what was registered" is covered only up to prost encode/decode being inverse; the descriptor structs are shims with the fields the index reads (A-prost-01)',
+            'extensions are not indexed by tonic (FileContainingExtension answers NOT_FOUND): outside the statement',
+            'the service list for use_all_service_names == true is proved per file (process_file P3: exactly the declared services in order); ReflectionServiceState::new proves the explicit-names case, the union over files is not restated there',
+            'Builder::{configure, register_*, with_service_name, build_v1, build_v1alpha} (impl Trait return types) are not under contract',
+        ]),
     'C02': dict(
         units=['encode', 'decode', 'status', 'reqresp', 'metadata', 'clientglue', 'serverglue'], level='proof',
         witness=[dict(append_to='tonic/src/status.rs', module='replay/status_witness.rs', crate='tonic', filter='verif_witness_status', features=['--features', 'gzip,deflate,zstd']), dict(append_to='tonic/src/codec/decode.rs', module='replay/decode_witness.rs', crate='tonic', filter='verif_witness_decode', features=['--features', 'gzip,deflate,zstd'])],
